@@ -34,6 +34,7 @@ import DfolsVerif.Proofs.ParamTable
 import DfolsVerif.Proofs.GenSpec
 import DfolsVerif.Gen.ExitSites
 import DfolsVerif.Proofs.TrySites
+import DfolsVerif.Proofs.SolveMainPaths
 
 namespace Dfols
 namespace C07
@@ -495,6 +496,15 @@ theorem C07_src_no_evaluation_before_validation {f : String} (h : TrySites.Reach
 /-- non-vacuity: the prelude does call package functions (parameter list, scaling, exit objects) -/
 example : "check_all_params" ∈ Gen.solvePreludeCalls ∧ "apply_scaling" ∈ Gen.solvePreludeCalls ∧ TrySites.preludeReach.length > 28 := by
   decide +kernel
+
+/-- **`solve` always returns a results object, at the source** (skeleton of the whole of `solve`, translated from solver.py on every
+    run; every outcome of every test, any number of hard restarts): every execution ends by `return results` where `results` was
+    constructed by `OptimResults(...)` on that path — the function never falls off its end and contains no `raise` of its own
+    (exceptions raised inside callees, and `assert`s, are outside the skeleton: they are what the run-time suites look for) -/
+theorem C07_src_solve_returns_result {tr : List String} {e : SkelL.Ending} (hx : SkelL.Exec Gen.solveBody tr e) :
+    e = .ret ∧ (SolveMainPaths.mSo.run ⟨false, 0, false, false⟩ tr).retRes = true ∧
+    (SolveMainPaths.mSo.run ⟨false, 0, false, false⟩ tr).retOther = false :=
+  SolveMainPaths.solve_returns_result hx
 
 end C07
 end Dfols
